@@ -68,7 +68,11 @@ CollCheck(cc, p, isDir) ==            \* <<ok, cc'>>
 
 \* ---- classification of a file list (CheckFiles) ----
 \* result: [valid, omitted, invalid: sequences of paths in order of first report; sizeerr]
-Class0 == [valid |-> <<>>, omitted |-> <<>>, invalid |-> <<>>, cc |-> <<>>, reported |-> {}, sizeerr |-> FALSE]
+\* sizes in bytes: "big" is one byte over the 16 MiB limit of go.mod and LICENSE, "third" is 170 MiB (two fit into an archive,
+\* three do not); "small" files are a few dozen bytes and count as nothing (no generated list comes within 1 KiB of the limit)
+MaxZipFile == 524288000
+SizeBytes(sz) == IF sz = "big" THEN 16777217 ELSE IF sz = "third" THEN 178257920 ELSE 0
+Class0 == [valid |-> <<>>, omitted |-> <<>>, invalid |-> <<>>, cc |-> <<>>, reported |-> {}, sizeerr |-> FALSE, budget |-> MaxZipFile]
 AddTo(c, list, p) == IF p \in c.reported THEN c ELSE [c EXCEPT ![list] = Append(@, p), !.reported = @ \cup {p}]
 ClassOne(c, f, files, ge124) ==
     LET p == f.path IN
@@ -85,8 +89,12 @@ ClassOne(c, f, files, ge124) ==
          ELSE LET c1 == [c EXCEPT !.cc = r[2]] IN
               IF f.mode = "symlink" THEN AddTo(c1, "omitted", p)
               ELSE IF f.mode # "regular" THEN AddTo(c1, "omitted", p)
-              ELSE IF f.size = "big" /\ (p = GoMod \/ p = S("LICENSE")) THEN AddTo(c1, "invalid", p)
-              ELSE [c1 EXCEPT !.valid = Append(@, p)]
+              \* the total size: every regular file that got this far is charged to one budget of 500 MiB, in order; a file that no
+              \* longer fits sets the size error and is not charged (a go.mod or LICENSE over its own limit is charged first)
+              ELSE LET sz == SizeBytes(f.size)
+                       c2 == IF sz <= c1.budget THEN [c1 EXCEPT !.budget = @ - sz] ELSE [c1 EXCEPT !.sizeerr = TRUE] IN
+                   IF f.size \in {"big", "third"} /\ (p = GoMod \/ p = S("LICENSE")) THEN AddTo(c2, "invalid", p)
+                   ELSE [c2 EXCEPT !.valid = Append(@, p)]
 \* go.mod files whose Lstat fails are reported invalid while looking for nested modules, before anything else
 PreErrors(files) == LET bad == SelectSeq(files, LAMBDA f : EqualFold(Base(f.path), GoMod) /\ f.lstat)
                     IN [i \in 1..Len(bad) |-> bad[i].path]
@@ -96,7 +104,7 @@ RECURSIVE AddAll(_, _)
 AddAll(c, ps) == IF ps = <<>> THEN c ELSE AddAll(AddTo(c, "invalid", Head(ps)), Tail(ps))
 Classify(files, ge124) ==
     LET c == ClassFrom(AddAll(Class0, PreErrors(files)), files, files, ge124)
-    IN [valid |-> c.valid, omitted |-> c.omitted, invalid |-> c.invalid]
+    IN [valid |-> c.valid, omitted |-> c.omitted, invalid |-> c.invalid, sizeerr |-> c.sizeerr]
 
 \* the go version class of the list: the last regular root go.mod decides
 Ge124(files) == LET roots == {i \in 1..Len(files) : files[i].path = GoMod /\ files[i].mode = "regular" /\ ~files[i].lstat} IN
@@ -104,7 +112,7 @@ Ge124(files) == LET roots == {i \in 1..Len(files) : files[i].path = GoMod /\ fil
 
 \* ---- creation ----
 \* with a valid module path and matching canonical version and honest sizes, creation succeeds iff nothing is invalid
-CreateOK(files, ge124) == Classify(files, ge124).invalid = <<>>
+CreateOK(files, ge124) == Classify(files, ge124).invalid = <<>> /\ ~Classify(files, ge124).sizeerr
 Entries(prefix, files, ge124) == LET v == Classify(files, ge124).valid IN [i \in 1..Len(v) |-> prefix \o v[i]]
 
 \* ---- archives (CheckZip / Unzip) ----
